@@ -54,7 +54,13 @@ type Prog struct {
 	FuncSeq []*ssa.Function // deterministic order
 	nameOf  map[*ssa.Function]string
 
-	unresolved  []string // anchors that failed to resolve
+	AllFuncs    []*ssa.Function // every source function, helpers included
+	helperOK    map[*ssa.Function]bool
+	sitesOf     map[*ssa.Function][]*ssa.Call
+	usedAsValue map[*ssa.Function]bool
+	declined    map[*ssa.Function]bool // helpers some context could not inline
+	cflow       *chanFlow
+	unresolved  []string               // anchors that failed to resolve
 	modCache    *modInfo
 	premiseBusy map[*ssa.Function]bool
 }
@@ -140,6 +146,21 @@ func Load(dir string, bc BuildConfig) (*Prog, error) {
 		return nil, fmt.Errorf("load: no SSA package")
 	}
 	p.indexFuncs()
+	// helpers that are only called (never used as values, go targets or
+	// deferred) are seen through their callers
+	p.AllFuncs = append([]*ssa.Function{}, p.FuncSeq...)
+	curProg = p
+	var roots []*ssa.Function
+	for _, fn := range p.AllFuncs {
+		top := fn
+		for top.Parent() != nil {
+			top = top.Parent()
+		}
+		if !p.absorbed(top) {
+			roots = append(roots, fn)
+		}
+	}
+	p.FuncSeq = roots
 	if len(p.Funcs) < 50 {
 		return nil, fmt.Errorf("load: only %d functions found", len(p.Funcs))
 	}
